@@ -161,7 +161,46 @@ func checkBuilt1(menu []spec.Batch, bt built, who string, fails *[]string, mu *s
 		failf(fails, mu, "%s: WriteTo of the segment built from menu item %d: %v", who, i, err)
 	} else if m := CheckFile(buf.Bytes(), exp.Count, 1026); m != "" {
 		failf(fails, mu, "%s: bytes of the segment built from menu item %d: %s", who, i, m)
+	} else if i == 0 && c10EmptyBaseline != nil && !bytes.Equal(buf.Bytes(), c10EmptyBaseline) {
+		// the empty batch has no maps whose order could vary: its bytes are a function of the
+		// batch and the chunk mode alone
+		failf(fails, mu, "%s: the EMPTY batch gives other bytes than it gave at the start of this history (%d bytes, first difference at offset %d: % x vs % x)", who, buf.Len(), firstDiff(buf.Bytes(), c10EmptyBaseline), tailFrom(buf.Bytes(), firstDiff(buf.Bytes(), c10EmptyBaseline)), tailFrom(c10EmptyBaseline, firstDiff(buf.Bytes(), c10EmptyBaseline)))
+	} else if kind, m := decodeAndCompare(buf.Bytes(), exp, 1026, false); kind != "" && !strings.HasPrefix(kind, "thesaurus-without-entries") {
+		// decoded independently: nothing of an earlier build (a section address, say) may be in them
+		failf(fails, mu, "%s: bytes of the segment built from menu item %d (%s): %s", who, i, kind, m)
 	}
+}
+
+// c10EmptyBaseline: bytes of the empty batch built at the start of the current history.
+var c10EmptyBaseline []byte
+
+func firstDiff(a, b []byte) int {
+	for i := 0; i < len(a) && i < len(b); i++ {
+		if a[i] != b[i] {
+			return i
+		}
+	}
+	return min(len(a), len(b))
+}
+
+func tailFrom(b []byte, i int) []byte {
+	if i > len(b) {
+		i = len(b)
+	}
+	return b[i:min(len(b), i+8)]
+}
+
+func emptyBatchBytes() []byte {
+	seg, _, err := zx.Build(spec.Batch{}, 1026)
+	if err != nil {
+		return nil
+	}
+	defer seg.Close()
+	var buf bytes.Buffer
+	if _, err := seg.(io.WriterTo).WriteTo(&buf); err != nil {
+		return nil
+	}
+	return buf.Bytes()
 }
 
 func buildAndCheck(menu []spec.Batch, i int, who string, fails *[]string, mu *sync.Mutex) {
@@ -196,6 +235,12 @@ func runC10(ci interface{}, a *run.Acc) {
 			}
 		}
 		if c.Kind == "hist" {
+			c10EmptyBaseline = nil
+			if c.Preseed == 0 && strings.HasPrefix(run.Flavour, "inst") {
+				// (only where the order in which a segment lists its sections is pinned: in the
+				// other flavours it follows Go's map order and legitimately varies)
+				sched.DefaultEnv(func() { c10EmptyBaseline = emptyBatchBytes() })
+			}
 			for k, i := range c.Seq {
 				buildAndCheck(menu, i, fmt.Sprintf("build %d of history %v", k, c.Seq), fails, mu)
 			}
@@ -253,7 +298,7 @@ func init() {
 	run.Register(&run.Def{
 		ID:          "C10",
 		Level:       "model_checking",
-		Rule:        "histories and schedules of real builds sharing the pooled builder memory: a batch menu of 8 items (empty; one small document whose text fields carry the names that the thesaurus and the vector field have in other items, plus a thesaurus whose only term has no synonym; many fields / terms / doc values / locations / arrays and a 500-byte stored value; few fields, many documents; synonyms with two thesauri; synonyms with one thesaurus; a batch rejected by the field validator; composite field with overlapping field names; under the vectors tag also a vector batch and a two-vector-field batch). (a) EVERY sequence over the menu of length <= 3 (quick) / 4 (thorough), run in one process: under the controlled scheduler with a deterministic sync.Pool (Get returns the most recently put builder = maximal reuse; the alternatives 'another pooled builder' and 'a fresh one' are explored as environment deviations, bound 1-2), with the pool empty or pre-seeded with 1-2 used builders left by concurrent builds (histories run without preemptions; goroutines spawned by the code run to completion at the spawn point); and with the real sync.Pool (GC disabled). (b) 2 goroutines building concurrently: every pair of the menu, pool pre-seeded with 0/1/2 used builders, interleavings at pool operations up to 4 preemptions (each build has 2 pool operations, so this covers all interleavings of 2 builds; 2 preemptions in quick when the pool is pre-seeded with 2 builders); 3 goroutines: every triple of a 5-item sub-menu, empty pool, preemption bound 2; results checked after the join; plus a free-running -race pass. Oracle: every build's complete dump equals the reference of its own batch (= what a fresh process would build), and the bytes it would persist carry a footer and CRC-32 that match them; the rejected batch fails. Non-trivial = history or schedule with >= 2 builds.",
+		Rule:        "histories and schedules of real builds sharing the pooled builder memory: a batch menu of 8 items (empty; one small document whose text fields carry the names that the thesaurus and the vector field have in other items, plus a thesaurus whose only term has no synonym; many fields / terms / doc values / locations / arrays and a 500-byte stored value; few fields, many documents; synonyms with two thesauri; synonyms with one thesaurus; a batch rejected by the field validator; composite field with overlapping field names; under the vectors tag also a vector batch and a two-vector-field batch). (a) EVERY sequence over the menu of length <= 3 (quick) / 4 (thorough), run in one process: under the controlled scheduler with a deterministic sync.Pool (Get returns the most recently put builder = maximal reuse; the alternatives 'another pooled builder' and 'a fresh one' are explored as environment deviations, bound 1-2), with the pool empty or pre-seeded with 1-2 used builders left by concurrent builds (histories run without preemptions; goroutines spawned by the code run to completion at the spawn point); and with the real sync.Pool (GC disabled). (b) 2 goroutines building concurrently: every pair of the menu, pool pre-seeded with 0/1/2 used builders, interleavings at pool operations up to 4 preemptions (each build has 2 pool operations, so this covers all interleavings of 2 builds; 2 preemptions in quick when the pool is pre-seeded with 2 builders); 3 goroutines: every triple of a 5-item sub-menu, empty pool, preemption bound 2; results checked after the join; plus a free-running -race pass. Oracle: every build's complete dump equals the reference of its own batch (= what a fresh process would build), and the bytes it would persist carry a footer and CRC-32 that match them and decode, by the independent v16 decoder, to the same content (no section address of an earlier build in them); the bytes of the EMPTY batch are the same wherever it occurs in a history (scheduler flavours, where the order of a segment's section list is pinned); the rejected batch fails. Non-trivial = history or schedule with >= 2 builds.",
 		Assumptions: append([]string{"the validator hook (exported variable ValidateDocFields) is set by the harness for the whole run"}, batchAssumptions...),
 		Bounds:      map[string]string{"quick": "sequences <= 3 x preseed {0,2} (scheduler) and <= 3 (real pool); all concurrent pairs, triples of a 5-item sub-menu; race pass", "thorough": "sequences <= 4 x preseed {0,1,2}; same concurrent space"},
 		Flavours:    func(string) []string { return []string{"inst", "instvec", "plain", "race"} },
